@@ -79,6 +79,18 @@ def cases(tier: str, seed: int) -> List[Dict[str, Any]]:
             out.append({"kind": "track", "prog": {"items": [["op", "linear:nn"], ["op", k]], "first": "x",
                                                   "sink": "two_outputs" if n % 2 else "sum"},
                         "backward": calls[-1] == "fb", "calls": calls, "seed": seed})
+    # tier A: the tracking backend called directly on FX graphs emitted from the AST (deeper programs)
+    from models.programs import chains
+
+    akeys = [k for k in SMALL if k != "index_rows"] + ["cat_kw", "cmp_two", "iadd_param"]
+    depth = 3 if tier == "thorough" else 2
+    for n, items in enumerate(chains(akeys, depth)):
+        out.append({"kind": "track", "tier_a": True, "prog": {"items": items, "first": "x", "sink": ["sum", "two_outputs", "tensor"][n % 3]},
+                    "backward": n % 4 != 0, "seed": seed})
+    for n, (a, b, c) in enumerate(itertools.product(akeys[:5], repeat=3)):
+        out.append({"kind": "track", "tier_a": True, "prog": {"items": [["op", a], ["res", [["op", b], ["op", c]], "skip_first"], ["op", "stack_mean"]],
+                                                             "first": "x", "sink": "two_outputs"}, "backward": [True, False, True][n % 3], "seed": seed,
+                    "calls": [["fb"], ["fb", "f"], ["f", "fb"]][n % 3]})
     for n, k in enumerate(KEYS):
         out.append({"kind": "analyse", "prog": {"items": [["op", "linear:nn"], ["op", k], ["op", "gelu:F"]], "first": "x",
                                                 "sink": "sum" if n % 2 else "tensor"}, "seed": seed})
@@ -162,8 +174,10 @@ def run_case(case: Dict[str, Any]) -> Dict[str, Any]:
         return {"violations": viol[:3], "steps": nchk, "nontrivial": nchk >= 3, "outcome": "analyse"}
 
     ident = f"track|first={prog['first']}|sink={prog['sink']}|bwd={int(case['backward'])}|ops={'+'.join(kinds)}"
+    if case.get("tier_a"):
+        ident = "fx|" + ident
     try:
-        r = track(prog, case["seed"], case["backward"], case.get("calls"))
+        r = track(prog, case["seed"], case["backward"], case.get("calls"), tier_a=bool(case.get("tier_a")))
     except Exception as e:  # noqa
         v = exception_violation(e, ident)
         return {"violations": [v], "outcome": "raises"}
@@ -172,13 +186,31 @@ def run_case(case: Dict[str, Any]) -> Dict[str, Any]:
     src = r["src"]
     if not r["captured"]:
         return {"violations": [{"key": ident + "|backend_not_invoked", "msg": src}]}
-    # (1) purely observational
-    if len(r["y_t"]) != len(r["y_plain"]) or any(not torch.equal(a, b) for a, b in zip(r["y_t"], r["y_plain"])):
+    # (1) purely observational (bit-identical).  A difference confined to the last bits (<= 1e-5
+    # relative) is reported under its own clause name so that it can be told from a gross change.
+    def differ(a: Any, b: Any) -> str:
+        if (a is None) != (b is None):
+            return "_changed"
+        if a is None or torch.equal(a, b):
+            return ""
+        if a.shape == b.shape:
+            sc = max(float(b.abs().max()), 1e-30)
+            if float((a - b).abs().max()) <= 1e-5 * sc:
+                return "_changed_last_bits"
+        return "_changed"
+
+    if len(r["y_t"]) != len(r["y_plain"]):
         viol.append({"key": ident + "|output_changed", "msg": src})
+    else:
+        for a, b in zip(r["y_t"], r["y_plain"]):
+            d = differ(a, b)
+            if d:
+                viol.append({"key": ident + "|output" + d, "msg": f"max abs diff {(a - b).abs().max().item() if a.shape == b.shape else 'shape'}\n" + src})
+                break
     for n, b in r["g_plain"].items():
-        a = r["g_t"].get(n)
-        if (a is None) != (b is None) or (a is not None and not torch.equal(a, b)):
-            viol.append({"key": ident + "|gradient_changed", "msg": f"{n}\n" + src})
+        d = differ(r["g_t"].get(n), b)
+        if d:
+            viol.append({"key": ident + "|gradient" + d, "msg": f"{n}\n" + src})
             break
     # (2)/(3) metrics
     nfloat = 0
